@@ -10,6 +10,8 @@ use vcore::{json, Check, Outcome, Report, Tier, Value};
 
 // ------------------------------------------------------------------ (a) editing histories, explicit-state BFS
 const VALS: [f64; 5] = [0.0, 1.0, -2.0, 3e-11, 1e-9];
+/// complex field: the same real values plus purely imaginary / mixed ones around the zero tolerance
+const CVALS: [(f64, f64); 9] = [(0.0, 0.0), (1.0, 0.0), (-2.0, 0.0), (3e-11, 0.0), (1e-9, 0.0), (0.0, 2.0), (3e-11, 1e-9), (1e-11, -2e-11), (0.0, -3e-11)];
 const TOL: f64 = 1e-10;
 
 #[derive(Clone, Debug, PartialEq, Eq, Hash, Serialize, Deserialize)]
@@ -31,60 +33,65 @@ pub enum Act {
 
 #[derive(Clone, Debug, Hash, PartialEq, Eq)]
 pub struct St {
-    /// ascending coefficient bit patterns exactly as the implementation holds them
-    coeffs: Vec<u64>,
+    /// ascending coefficient bit patterns (re, im) exactly as the implementation holds them
+    coeffs: Vec<(u64, u64)>,
     mismatch: Option<String>,
     /// depth is part of the key: under a parallel depth-bounded BFS a state first reached by a longer
     /// path would otherwise not be expanded, and the explored set would depend on thread timing
     depth: u8,
 }
 
-fn build(c: &[f64]) -> Polynomial<f64> {
-    let desc: Vec<f64> = c.iter().rev().cloned().collect();
-    Polynomial::from_slice(&desc)
+fn val<N: Fld>(vi: usize) -> C {
+    if N::COMPLEX { C::new(CVALS[vi].0, CVALS[vi].1) } else { C::new(VALS[vi], 0.0) }
 }
-fn read(p: &Polynomial<f64>) -> Vec<f64> {
-    let mut v = p.get_coefficients();
-    v.reverse();
-    v
+fn nvals<N: Fld>() -> usize {
+    if N::COMPLEX { CVALS.len() } else { VALS.len() }
 }
-fn apply_impl(p: &mut Polynomial<f64>, a: &Act) {
+fn build<N: Fld>(c: &[C]) -> Polynomial<N> {
+    mk::<N>(c)
+}
+fn read<N: Fld>(p: &Polynomial<N>) -> Vec<C> {
+    asc(p)
+}
+fn apply_impl<N: Fld>(p: &mut Polynomial<N>, a: &Act) {
+    let r = |x: f64| N::from_c(C::new(x, 0.0));
     match a {
-        Act::Set(pw, vi) => p.set_coefficient(*pw, VALS[*vi]),
+        Act::Set(pw, vi) => p.set_coefficient(*pw, N::from_c(val::<N>(*vi))),
         Act::Purge(pw) => p.purge_coefficient(*pw),
         Act::PurgeLeading => p.purge_leading(),
-        Act::AddS(s) => *p += *s as f64,
-        Act::SubS(s) => *p -= *s as f64,
-        Act::MulS(s) => *p *= *s as f64,
-        Act::DivS(s) => *p /= *s as f64,
-        Act::AddX => *p += Polynomial::from_slice(&[1.0, 0.0]),
-        Act::SubX2 => *p -= &Polynomial::from_slice(&[1.0, 0.0, 0.0]),
+        Act::AddS(s) => *p += r(*s as f64),
+        Act::SubS(s) => *p -= r(*s as f64),
+        Act::MulS(s) => *p *= r(*s as f64),
+        Act::DivS(s) => *p /= r(*s as f64),
+        Act::AddX => *p += Polynomial::from_slice(&[r(1.0), r(0.0)]),
+        Act::SubX2 => *p -= &Polynomial::from_slice(&[r(1.0), r(0.0), r(0.0)]),
         Act::Deriv => *p = p.derivative(),
-        Act::Anti => *p = p.antiderivative(1.0),
+        Act::Anti => *p = p.antiderivative(r(1.0)),
         Act::Neg => *p = -p.clone(),
         Act::RoundTrip => *p = Polynomial::from_slice(&p.get_coefficients()),
     }
 }
-/// Reference model: a coefficient map (Vec<f64>, ascending, implicit zeros above). Returns the expected map.
-fn apply_ref(c: &[f64], a: &Act) -> Vec<f64> {
+/// Reference model: a coefficient map (Vec, ascending, implicit zeros above). Returns the expected map.
+fn apply_ref<N: Fld>(c: &[C], a: &Act) -> Vec<C> {
     let mut r = c.to_vec();
-    let ext = |r: &mut Vec<f64>, n: usize| {
+    let z = C::new(0.0, 0.0);
+    let ext = |r: &mut Vec<C>, n: usize| {
         while r.len() < n {
-            r.push(0.0)
+            r.push(z)
         }
     };
     match a {
         Act::Set(p, vi) => {
             ext(&mut r, *p as usize + 1);
-            r[*p as usize] = VALS[*vi];
+            r[*p as usize] = val::<N>(*vi);
         }
         Act::Purge(p) => {
             if *p < r.len() {
-                r[*p] = 0.0;
+                r[*p] = z;
             }
         }
         Act::PurgeLeading => {
-            while r.len() > 1 && r.last().unwrap().abs() <= TOL {
+            while r.len() > 1 && r.last().unwrap().re.abs() <= TOL && r.last().unwrap().im.abs() <= TOL {
                 r.pop();
             }
         }
@@ -101,10 +108,10 @@ fn apply_ref(c: &[f64], a: &Act) -> Vec<f64> {
             r[2] -= 1.0;
         }
         Act::Deriv => {
-            r = if r.len() == 1 { vec![0.0] } else { r.iter().enumerate().skip(1).map(|(i, x)| i as f64 * x).collect() };
+            r = if r.len() == 1 { vec![z] } else { r.iter().enumerate().skip(1).map(|(i, x)| x * i as f64).collect() };
         }
         Act::Anti => {
-            let mut o = vec![1.0];
+            let mut o = vec![C::new(1.0, 0.0)];
             for (i, x) in r.iter().enumerate() {
                 o.push(x / (i + 1) as f64);
             }
@@ -116,10 +123,11 @@ fn apply_ref(c: &[f64], a: &Act) -> Vec<f64> {
     r
 }
 /// one-step conformance on every observable; returns a mismatch description
-fn conform(before: &[f64], a: &Act, p: &Polynomial<f64>) -> Option<String> {
-    let want = apply_ref(before, a);
+fn conform<N: Fld>(before: &[C], a: &Act, p: &Polynomial<N>) -> Option<String> {
+    let want = apply_ref::<N>(before, a);
     let got = read(p);
-    let g = |v: &[f64], k: usize| if k < v.len() { v[k] } else { 0.0 };
+    let z = C::new(0.0, 0.0);
+    let g = |v: &[C], k: usize| if k < v.len() { v[k] } else { z };
     if got.is_empty() {
         return Some(format!("{:?} on {:?}: empty coefficient list", a, before));
     }
@@ -128,17 +136,17 @@ fn conform(before: &[f64], a: &Act, p: &Polynomial<f64>) -> Option<String> {
     }
     for k in 0..got.len().max(want.len()) + 2 {
         let (x, y) = (g(&got, k), g(&want, k));
-        let viaget = p.get_coefficient(k);
-        if viaget.to_bits() != x.to_bits() && !(viaget == 0.0 && x == 0.0) {
+        let viaget = p.get_coefficient(k).to_c();
+        if viaget != x {
             return Some(format!("{:?} on {:?}: get_coefficient({}) = {} but get_coefficients() says {}", a, before, k, viaget, x));
         }
-        let rel_ok = (x - y).abs() <= 2.0 * EPS * y.abs();
+        let rel_ok = (x - y).norm() <= 2.0 * EPS * y.norm();
         if !(x == y || rel_ok) {
-            return Some(format!("{:?} on {:?}: power {} is {:e}, reference coefficient map says {:e} (got {:?})", a, before, k, x, y, got));
+            return Some(format!("{:?} on {:?}: power {} is {}, reference coefficient map says {} (got {:?})", a, before, k, x, y, got));
         }
     }
     // no information may be lost to the representation: order >= highest non-zero power of the reference
-    let hi = want.iter().rposition(|x| *x != 0.0).unwrap_or(0);
+    let hi = want.iter().rposition(|x| x.norm() != 0.0).unwrap_or(0);
     if matches!(a, Act::PurgeLeading) {
         if got.len() != want.len() {
             return Some(format!("{:?} on {:?}: order {} expected {}", a, before, got.len() - 1, want.len() - 1));
@@ -149,19 +157,20 @@ fn conform(before: &[f64], a: &Act, p: &Polynomial<f64>) -> Option<String> {
     None
 }
 
-struct Edit {
-    inits: Vec<Vec<f64>>,
+struct Edit<N: Fld> {
+    _n: std::marker::PhantomData<N>,
+    inits: Vec<Vec<C>>,
     acts: Vec<Act>,
     max_len: usize,
     /// explored to closure (no depth bound): depth is then not part of the key
     closure: bool,
     transitions: AtomicU64,
 }
-impl Model for Edit {
+impl<N: Fld + Send + Sync> Model for Edit<N> {
     type State = St;
     type Action = Act;
     fn init_states(&self) -> Vec<St> {
-        self.inits.iter().map(|c| St { coeffs: c.iter().map(|x| x.to_bits()).collect(), mismatch: None, depth: 0 }).collect()
+        self.inits.iter().map(|c| St { coeffs: c.iter().map(|x| (x.re.to_bits(), x.im.to_bits())).collect(), mismatch: None, depth: 0 }).collect()
     }
     fn actions(&self, s: &St, out: &mut Vec<Act>) {
         if s.mismatch.is_none() {
@@ -170,9 +179,9 @@ impl Model for Edit {
     }
     fn next_state(&self, s: &St, a: Act) -> Option<St> {
         self.transitions.fetch_add(1, Ordering::Relaxed);
-        let before: Vec<f64> = s.coeffs.iter().map(|b| f64::from_bits(*b)).collect();
+        let before: Vec<C> = s.coeffs.iter().map(|b| C::new(f64::from_bits(b.0), f64::from_bits(b.1))).collect();
         let res = vcore::guard(|| {
-            let mut p = build(&before);
+            let mut p = build::<N>(&before);
             apply_impl(&mut p, &a);
             p
         });
@@ -181,10 +190,10 @@ impl Model for Edit {
             Ok(p) => {
                 let mm = conform(&before, &a, &p);
                 let after = read(&p);
-                if mm.is_none() && (after.len() > self.max_len || after.iter().any(|x| x.abs() > 64.0)) {
+                if mm.is_none() && (after.len() > self.max_len || after.iter().any(|x| x.norm() > 64.0)) {
                     return None; // boundary of the explored space
                 }
-                Some(St { coeffs: after.iter().map(|x| (x + 0.0).to_bits()).collect(), mismatch: mm, depth: if self.closure { 0 } else { s.depth + 1 } })
+                Some(St { coeffs: after.iter().map(|x| ((x.re + 0.0).to_bits(), (x.im + 0.0).to_bits())).collect(), mismatch: mm, depth: if self.closure { 0 } else { s.depth + 1 } })
             }
         }
     }
@@ -197,19 +206,21 @@ impl Model for Edit {
 pub struct EditPt {
     model: String,
     depth: usize,
+    #[serde(default)]
+    complex: bool,
     /// replay: run exactly this action sequence on a real Polynomial, without the explorer
     #[serde(default)]
-    path: Option<(Vec<f64>, Vec<Act>)>,
+    path: Option<(Vec<(f64, f64)>, Vec<Act>)>,
 }
 pub struct Editing;
-fn edit_model(name: &str) -> Edit {
+fn edit_model<N: Fld>(name: &str) -> Edit<N> {
     let mut acts = vec![];
     let inits;
     let max_len;
     match name {
         "set-purge-closure" => {
-            for p in 0..=4u32 {
-                for v in 0..VALS.len() {
+            for p in 0..=(if N::COMPLEX { 3u32 } else { 4u32 }) {
+                for v in 0..nvals::<N>() {
                     acts.push(Act::Set(p, v));
                 }
             }
@@ -217,12 +228,12 @@ fn edit_model(name: &str) -> Edit {
                 acts.push(Act::Purge(p));
             }
             acts.push(Act::PurgeLeading);
-            inits = vec![vec![0.0]];
-            max_len = 5;
+            inits = vec![vec![C::new(0.0, 0.0)]];
+            max_len = if N::COMPLEX { 4 } else { 5 };
         }
         _ => {
             for p in 0..=5u32 {
-                for v in 0..VALS.len() {
+                for v in 0..nvals::<N>() {
                     acts.push(Act::Set(p, v));
                 }
             }
@@ -234,11 +245,12 @@ fn edit_model(name: &str) -> Edit {
                 acts.extend([Act::AddS(s), Act::SubS(s), Act::MulS(s), Act::DivS(s)]);
             }
             acts.extend([Act::AddX, Act::SubX2, Act::Deriv, Act::Anti, Act::Neg, Act::RoundTrip]);
-            inits = vec![vec![0.0], vec![1.0, 1.0], vec![-2.0, 0.0, 3.0], vec![1.0, 0.0, 0.0, 1e-9], vec![0.5, -1.0, 0.25, 2.0, 3e-11]];
+            let r = |v: &[f64]| -> Vec<C> { v.iter().map(|x| C::new(*x, if N::COMPLEX && *x != 0.0 { 0.5 * x } else { 0.0 })).collect() };
+            inits = vec![r(&[0.0]), r(&[1.0, 1.0]), r(&[-2.0, 0.0, 3.0]), r(&[1.0, 0.0, 0.0, 1e-9]), r(&[0.5, -1.0, 0.25, 2.0, 3e-11])];
             max_len = 8;
         }
     }
-    Edit { inits, acts, max_len, closure: name == "set-purge-closure", transitions: AtomicU64::new(0) }
+    Edit { _n: std::marker::PhantomData, inits, acts, max_len, closure: name == "set-purge-closure", transitions: AtomicU64::new(0) }
 }
 impl Check for Editing {
     type P = EditPt;
@@ -246,72 +258,80 @@ impl Check for Editing {
         "editing-histories"
     }
     fn rule(&self) -> String {
-        "stateright BFS over real Polynomial<f64> values: (1) set/purge/purge_leading fragment explored to closure (powers 0..=4, purge 0..=6, 5 values incl. one below and one above the zero tolerance), (2) all 61 actions incl. scalar arithmetic, += x, -= x^2, derivative, antiderivative, negation, slice round trip, depth-bounded from 5 initial polynomials; every transition is a one-step conformance check of all observables against a coefficient-map reference; run with 16 threads and with 1 thread, counts must agree; signature = (model, unique states, depth)".into()
+        "stateright BFS over real Polynomial<f64> and Polynomial<Complex<f64>> values: (1) set/purge/purge_leading fragment explored to closure (powers 0..=4, purge 0..=6, 5 values incl. one below and one above the zero tolerance), (2) all 61 actions incl. scalar arithmetic, += x, -= x^2, derivative, antiderivative, negation, slice round trip, depth-bounded from 5 initial polynomials; every transition is a one-step conformance check of all observables against a coefficient-map reference; run with 16 threads and with 1 thread, counts must agree; signature = (model, unique states, depth)".into()
     }
     fn axes(&self, t: Tier) -> Value {
-        json!({"values": VALS, "zero_tolerance": TOL, "models": [{"name":"set-purge-closure","depth":"closure"},{"name":"all-actions","depth": t.pick(5,6)}], "boundary": "order <= 7, |coefficient| <= 64"})
+        json!({"values": VALS, "zero_tolerance": TOL, "complex_values": format!("{:?}", CVALS), "models": [{"name":"set-purge-closure","depth":"closure","fields":"f64 and Complex<f64>"},{"name":"all-actions","depth_f64": t.pick(5,6), "depth_complex": t.pick(4,5)}], "boundary": "order <= 7, |coefficient| <= 64"})
     }
     fn points(&self, t: Tier) -> Vec<EditPt> {
-        vec![EditPt { model: "set-purge-closure".into(), depth: 64, path: None }, EditPt { model: "all-actions".into(), depth: t.pick(5, 6), path: None }]
+        vec![
+            EditPt { model: "set-purge-closure".into(), depth: 64, complex: false, path: None },
+            EditPt { model: "all-actions".into(), depth: t.pick(5, 6), complex: false, path: None },
+            EditPt { model: "set-purge-closure".into(), depth: 64, complex: true, path: None },
+            EditPt { model: "all-actions".into(), depth: t.pick(4, 5), complex: true, path: None },
+        ]
     }
     fn run(&self, p: &EditPt) -> Outcome {
-        let mut o = Outcome::new();
-        if let Some((init, path)) = &p.path {
-            // plain replay without the explorer
-            let mut cur = init.clone();
-            o.executions = path.len() as u64;
-            for a in path {
-                let res = vcore::guard(|| {
-                    let mut q = build(&cur);
-                    apply_impl(&mut q, a);
-                    q
-                });
-                match res {
-                    Err(m) => {
-                        o.viol("polynomial::editing", "no-panic", format!("{:?} on {:?}: panic: {}", a, cur, m));
+        if p.complex { run_edit::<C>(p) } else { run_edit::<f64>(p) }
+    }
+}
+fn run_edit<N: Fld + Send + Sync>(p: &EditPt) -> Outcome {
+    let mut o = Outcome::new();
+    if let Some((init, path)) = &p.path {
+        // plain replay without the explorer
+        let mut cur: Vec<C> = init.iter().map(|(a, b)| C::new(*a, *b)).collect();
+        o.executions = path.len() as u64;
+        for a in path {
+            let res = vcore::guard(|| {
+                let mut q = build::<N>(&cur);
+                apply_impl(&mut q, a);
+                q
+            });
+            match res {
+                Err(m) => {
+                    o.viol("polynomial::editing", "no-panic", format!("{:?} on {:?}: panic: {}", a, cur, m));
+                    break;
+                }
+                Ok(q) => {
+                    if let Some(mm) = conform::<N>(&cur, a, &q) {
+                        o.viol("polynomial::editing", "one-step-conformance", mm);
                         break;
                     }
-                    Ok(q) => {
-                        if let Some(mm) = conform(&cur, a, &q) {
-                            o.viol("polynomial::editing", "one-step-conformance", mm);
-                            break;
-                        }
-                        cur = read(&q);
-                    }
-                }
-            }
-            o.sig = format!("replay|{:?}", cur);
-            return o;
-        }
-        let mut counts = vec![];
-        for threads in [16usize, 1] {
-            let m = edit_model(&p.model);
-            let checker = m.checker().threads(threads).target_max_depth(p.depth).spawn_bfs().join();
-            let tr = checker.model().transitions.load(Ordering::Relaxed);
-            counts.push((checker.unique_state_count(), checker.max_depth()));
-            if threads == 16 {
-                o.states = checker.unique_state_count() as u64;
-                o.transitions = tr;
-                o.executions = tr;
-                if let Some(path) = checker.discovery("conforms") {
-                    let last = path.last_state().clone();
-                    let init: Vec<f64> = path.clone().into_states().first().map(|s| s.coeffs.iter().map(|b| f64::from_bits(*b)).collect()).unwrap_or_default();
-                    let acts: Vec<Act> = path.into_actions();
-                    let msg = last.mismatch.unwrap_or_default();
-                    let clause = if msg.contains("panic") { "no-panic" } else { "one-step-conformance" };
-                    o.viol("polynomial::editing", clause, format!("shortest counterexample from {:?}: {:?} => {}", init, acts, msg));
-                    o.replay_point = Some(json!({"model": p.model, "depth": p.depth, "path": [init, acts]}));
-                    o.sig = format!("{}|counterexample-depth{}", p.model, acts.len());
-                    return o;
+                    cur = read(&q);
                 }
             }
         }
-        if counts[0].0 != counts[1].0 {
-            panic!("stateright model is not deterministic: unique states {} (16 threads) vs {} (1 thread)", counts[0].0, counts[1].0);
-        }
-        o.sig = format!("{}|states{}|depth{}", p.model, counts[0].0, counts[0].1);
-        o
+        o.sig = format!("replay|{:?}", cur);
+        return o;
     }
+    let mut counts = vec![];
+    for threads in [16usize, 1] {
+        let m = edit_model::<N>(&p.model);
+        let checker = m.checker().threads(threads).target_max_depth(p.depth).spawn_bfs().join();
+        let tr = checker.model().transitions.load(Ordering::Relaxed);
+        counts.push((checker.unique_state_count(), checker.max_depth()));
+        if threads == 16 {
+            o.states = checker.unique_state_count() as u64;
+            o.transitions = tr;
+            o.executions = tr;
+            if let Some(path) = checker.discovery("conforms") {
+                let last = path.last_state().clone();
+                let init: Vec<(f64, f64)> = path.clone().into_states().first().map(|s| s.coeffs.iter().map(|b| (f64::from_bits(b.0), f64::from_bits(b.1))).collect()).unwrap_or_default();
+                let acts: Vec<Act> = path.into_actions();
+                let msg = last.mismatch.unwrap_or_default();
+                let clause = if msg.contains("panic") { "no-panic" } else { "one-step-conformance" };
+                o.viol("polynomial::editing", clause, format!("shortest counterexample ({}) from {:?}: {:?} => {}", N::NAME, init, acts, msg));
+                o.replay_point = Some(json!({"model": p.model, "depth": p.depth, "complex": p.complex, "path": [init, acts]}));
+                o.sig = format!("{}|{}|counterexample-depth{}", p.model, N::NAME, acts.len());
+                return o;
+            }
+        }
+    }
+    if counts[0].0 != counts[1].0 {
+        panic!("stateright model is not deterministic: unique states {} (16 threads) vs {} (1 thread)", counts[0].0, counts[1].0);
+    }
+    o.sig = format!("{}|{}|states{}|depth{}", p.model, N::NAME, counts[0].0, counts[0].1);
+    o
 }
 
 // ------------------------------------------------------------------ (b) identities on a lattice
@@ -407,9 +427,11 @@ fn id_point<N: Fld>(p: &IdPt) -> Outcome {
                 o.viol("polynomial::evaluate_derivative", "derivative-agrees-with-derivative-polynomial", ctx(&format!("x={} got {} vs {} (exact {})", x, dv.to_c(), dwant, eval_ref(&dref, x))));
                 break;
             }
-            // definite integrals between consecutive points, additivity through the next one
+            // definite integrals between consecutive points, additivity through the next one; the first 9 triples
+            // use special end points instead (exactly 0 at either end, equal bounds, reversed order, +-1)
             if j + 2 < pts.len() {
-                let (a_, m_, b_) = (pts[j], pts[j + 1], pts[j + 2]);
+                let sp = [0.0, 1.0, -1.0, 0.5];
+                let (a_, m_, b_) = if j < 9 { (C::new(sp[j % 4] * (1 - (j / 4) as i32 % 2 * 2) as f64 * if j >= 8 { 0.0 } else { 1.0 }, 0.0), C::new(sp[(j + 1) % 4], 0.0), C::new(sp[(j + 2 + j / 4) % 4], 0.0)) } else { (pts[j], pts[j + 1], pts[j + 2]) };
                 let a0: Vec<C> = std::iter::once(C::new(0.0, 0.0)).chain((0..n).map(|k| c[k] / (k + 1) as f64)).collect();
                 let itol = 4.0 * (n + 1) as f64 * EPS * (cond_sum(&a0, a_) + cond_sum(&a0, b_) + cond_sum(&a0, m_)) + 1e-300;
                 let iab = poly.integrate(N::from_c(a_), N::from_c(b_)).to_c();
